@@ -74,8 +74,9 @@ CHECKS = {
          'highlight wrapping, and one region of the report: the body is a '
          'gap-free, overlap-free tiling of the source stretch, every match is '
          'highlighted exactly once (in place or in the overlap list), a '
-         'highlight is the escaped source span of its match (never empty). '
-         'Grouping into regions, context lines and line numbers are part of '
+         'highlight is the escaped source span of its match (never empty), '
+         'the regions partition the matches. '
+         'Context lines and line numbers are part of '
          'the byte-exact executable model and are decided by the '
          'correspondence run and the HTML-parsing oracle',
     ref='6/C16, 11.2',
@@ -129,7 +130,14 @@ CHECKS = {
     ref='6/C03, 11.2', technique='Coq proof (conservation lemmas) + '
          'differential run + word / hidden-text oracle'),
  'C04': dict(
-    text='partial. Theorems per generating step: tokens made for citations, '
+    text='partial. End to end for every document accepted by the computable '
+         'test doc_in_class (plain text, special sequences, undeclared control '
+         'words, comments, braces, nested pass-through macros, macros without '
+         'arguments whose body is text): each visible token that parser_work '
+         'returns is a scanner token at its own place, the tabulated text of '
+         'a special sequence at the position of the sequence, or a body token '
+         'of a macro pinned at the macro call '
+         '(C04_generated_text_of_the_class). Theorems per generating step: tokens made for citations, '
          'theorem titles, headings (full stop), user macro bodies, inline '
          'formulas, simple-mode equations and error marks are pinned at the '
          'first token of the construct or at one of its argument tokens. Not '
